@@ -2450,10 +2450,11 @@ func (e *c05Env) phaseStreamModel() {
 		return ecl
 	}
 	type sc struct {
-		line string
-		want []string
-		in   []byte
-		plan string
+		line   string
+		want   []string
+		in     []byte
+		plan   string
+		script string
 	}
 	var cases []sc
 	r := c05Rng(c, 10, 0)
@@ -2490,14 +2491,43 @@ func (e *c05Env) phaseStreamModel() {
 			rec := &c05RecReader{inner: &c05ChunkReader{data: data, plan: &pl, rs: p.seed | 1, sticky: true}}
 			var want []string
 			ok := true
+			// the script: ReadToken only, or a random word over ReadToken / ReadValue / SkipValue
+			script := strings.Repeat("T", ncalls)
+			if r.IntN(3) != 0 {
+				bs := make([]byte, ncalls)
+				for i := range bs {
+					bs[i] = "TTVSV"[r.IntN(5)]
+				}
+				script = string(bs)
+			}
 			if pp := guard(func() {
 				dec := jsontext.NewDecoder(rec, c05Opts(optSel)...)
 				for i := 0; i < ncalls; i++ {
-					tok, err := dec.ReadToken()
+					var err error
+					var res string
+					switch script[i] {
+					case 'T':
+						var tok jsontext.Token
+						tok, err = dec.ReadToken()
+						if err == nil {
+							res = fmt.Sprintf("T%d:%d", tok.Kind(), dec.InputOffset())
+						}
+					case 'V':
+						var v jsontext.Value
+						v, err = dec.ReadValue()
+						if err == nil {
+							res = fmt.Sprintf("T%d:%d:%d", v.Kind(), dec.InputOffset()-int64(len(v)), dec.InputOffset())
+						}
+					case 'S':
+						err = dec.SkipValue()
+						if err == nil {
+							res = fmt.Sprintf("S:%d", dec.InputOffset())
+						}
+					}
 					cl, off, _ := c05ErrClass(err)
 					switch {
 					case cl == "nil":
-						want = append(want, fmt.Sprintf("T%d:%d", tok.Kind(), dec.InputOffset()))
+						want = append(want, res)
 					case cl == "IO":
 						want = append(want, "F")
 					case cl == "EOF":
@@ -2507,18 +2537,18 @@ func (e *c05Env) phaseStreamModel() {
 					}
 				}
 			}); pp != nil {
-				c.Panic("stream-model:ReadToken", in, pp, map[string]any{"reader": p.String()})
+				c.Panic("stream-model:"+script, in, pp, map[string]any{"reader": p.String()})
 				ok = false
 			}
 			if !ok {
 				continue
 			}
-			line := fmt.Sprintf("dec stream %d %d %s", optSel, ncalls, strings.Join(rec.log, " "))
+			line := fmt.Sprintf("dec script %d %s %s", optSel, script, strings.Join(rec.log, " "))
 			if rest := data[rec.inner.pos:]; len(rest) > 0 && (len(rec.log) == 0 || rec.log[len(rec.log)-1] != "E") {
 				line += " " + hx(rest)
 			}
 			line += " E"
-			cases = append(cases, sc{line, want, in, p.String()})
+			cases = append(cases, sc{line, want, in, p.String() + " " + script, script})
 			c.Case("S|"+string(in)+"|"+p.String(), len(in) >= 2)
 		}
 	}
@@ -2535,7 +2565,7 @@ func (e *c05Env) phaseStreamModel() {
 		for j := range got {
 			f := strings.Split(got[j], ":")
 			switch {
-			case len(f) == 3 && strings.HasPrefix(f[0], "T"):
+			case len(f) == 3 && strings.HasPrefix(f[0], "T") && j < len(cs.script) && cs.script[j] == 'T':
 				got[j] = f[0] + ":" + f[2]
 			case f[0] == "Xioeof":
 				got[j] = "Xioeof"
@@ -2545,12 +2575,16 @@ func (e *c05Env) phaseStreamModel() {
 			bad++
 			c.Violate("corr-stream", "dec stream", cs.in, map[string]any{"line": trunc(cs.line, 300), "implementation": strings.Join(cs.want, ";"), "model": ans[i], "input": trunc(string(cs.in), 200), "reader": cs.plan})
 		}
-		for _, w := range cs.want {
-			c.Hit("corr:stream:" + strings.SplitN(strings.SplitN(w, ":", 2)[0], "1", 2)[0][:1])
+		for j, w := range cs.want {
+			call := "T"
+			if j < len(cs.script) {
+				call = cs.script[j : j+1]
+			}
+			c.Hit("corr:stream:" + call + "->" + w[:1])
 		}
 	}
 	c.HitN("corr:stream-lines", int64(len(cases)))
-	c.Note("phase S: %d runs of %d ReadToken calls of the real Decoder over recorded reader events vs the streaming model, %d disagreements", len(cases), ncalls, bad)
+	c.Note("phase S: %d runs of %d calls (ReadToken only, or random words over ReadToken/ReadValue/SkipValue) of the real Decoder over recorded reader events vs the streaming model, %d disagreements", len(cases), ncalls, bad)
 }
 
 // c05Replay re-runs the single case recorded in a replay file written by Violate.
